@@ -7,7 +7,8 @@ EXTENDS PartsOrder, Json
 
 CONSTANTS K,         \* number of declared parts
           Fmts,      \* subset of {"xlsx", "pptx", "epub"}
-          Wide       \* FALSE: the hand-picked profiles; TRUE: the full product (simulation)
+          Wide       \* "some": the hand-picked profiles; "wide": the full product (simulation);
+                     \* "neg": a handful that suffices to refute the implementation-shaped readers
 
 Perms == {p \in [1..K -> 1..K] : \A i, j \in 1..K : (p[i] = p[j]) => i = j}
 \* listing orders explored exhaustively: all for K <= 3, half of them (the part numbered K listed
@@ -45,14 +46,28 @@ PosIn(p, x) == CHOOSE i \in 1..K : p[i] = x
 \* decoy "conv": an undeclared member with the CONVENTIONAL name (xl/worksheets/sheet<k>.xml,
 \*          ppt/slides/slide<k>.xml) numbered by the missing position, in packages whose real
 \*          parts live elsewhere
+\* xml    : the SPELLING of the declarations (workbook.xml / presentation.xml / container.xml / OPF and the
+\*          relationship parts) - it never changes what is declared:
+\*          rev attributes in reverse order; prefix bound to the relationships namespace; single quotes; foreign: an
+\*          extra attribute with local name "id" from an ignorable namespace (EPUB: the itemref's own id), written
+\*          after the real ones; oc: <x></x> instead of <x/>; gaps: line breaks and comments between entries;
+\*          decl: XML declaration "std", "none", or "bom" (byte order mark)
+XmlProf(rev, prefix, single, foreign, oc, gaps, decl) ==
+    [rev |-> rev, prefix |-> prefix, single |-> single, foreign |-> foreign, oc |-> oc, gaps |-> gaps, decl |-> decl]
+XStd == XmlProf(FALSE, "r", FALSE, FALSE, FALSE, FALSE, "std")
+XmlSome == { XmlProf(TRUE, "r", FALSE, FALSE, FALSE, FALSE, "std"),        \* r:id BEFORE id / name; Target, Type, Id
+             XmlProf(FALSE, "rel", TRUE, FALSE, TRUE, FALSE, "none"),      \* other prefix, single quotes, open-close, no declaration
+             XmlProf(FALSE, "r", FALSE, TRUE, FALSE, TRUE, "bom"),         \* foreign id LAST, comments between entries, BOM
+             XmlProf(TRUE, "ns1", TRUE, TRUE, TRUE, TRUE, "std") }          \* everything, foreign id FIRST
 OProf(pa, tg, de, ex, inf) == [paths |-> pa, tgt |-> tg, decoy |-> de, extras |-> ex, infra |-> inf,
-                               enc |-> "none", opf |-> "root", ver |-> 0, extra |-> FALSE, missing |-> 0, alias |-> "none", chain |-> "one"]
+                               enc |-> "none", opf |-> "root", ver |-> 0, extra |-> FALSE, missing |-> 0, alias |-> "none", chain |-> "one", xml |-> XStd]
 EProf(pa, en, op, ve, de, xt, ex, inf) == [paths |-> pa, tgt |-> "rel", decoy |-> de, extras |-> ex, infra |-> inf,
-                               enc |-> en, opf |-> op, ver |-> ve, extra |-> xt, missing |-> 0, alias |-> "none", chain |-> "one"]
+                               enc |-> en, opf |-> op, ver |-> ve, extra |-> xt, missing |-> 0, alias |-> "none", chain |-> "one", xml |-> XStd]
 Miss(pr, m) == [pr EXCEPT !.missing = m]
 Enc(pr, e)  == [pr EXCEPT !.enc = e]
 Alias(pr, a) == [pr EXCEPT !.alias = a]
 ChainOf(pr, c) == [pr EXCEPT !.chain = c]
+Xml(pr, x) == [pr EXCEPT !.xml = x]
 
 OProfiles == { OProf("std", "rel", "none", TRUE, TRUE),      OProf("std", "abs", "last", FALSE, FALSE),
                OProf("nested", "rel", "first", FALSE, TRUE), OProf("renamed", "rel", "none", TRUE, FALSE),
@@ -69,6 +84,8 @@ OProfiles == { OProf("std", "rel", "none", TRUE, TRUE),      OProf("std", "abs",
                Alias(Enc(OProf("dot", "abs", "none", FALSE, TRUE), "pct2520"), "decoded"), OProf("dot", "rel", "none", FALSE, FALSE),
                \* the declaration chain
                ChainOf(OProf("std", "rel", "last", TRUE, TRUE), "infraFirst"), ChainOf(OProf("renamed", "abs", "none", TRUE, FALSE), "infraFirst") }
+             \* the spelling of the declarations (a decoy with a conventional name shows a reader that falls back to discovery)
+             \cup { Xml(OProf("std", "rel", "last", FALSE, TRUE), x) : x \in XmlSome }
 EProfiles == { EProf("std", "none", "one", 3, "none", FALSE, TRUE, TRUE),
                EProf("std", "sp20", "root", 2, "last", TRUE, FALSE, FALSE),
                EProf("nested", "plusLit", "one", 3, "none", FALSE, FALSE, TRUE),
@@ -98,6 +115,8 @@ EProfiles == { EProf("std", "none", "one", 3, "none", FALSE, TRUE, TRUE),
                ChainOf(EProf("renamed", "plusLit", "one", 2, "first", FALSE, FALSE, TRUE), "three"),
                ChainOf(Miss(EProf("std", "none", "one", 3, "none", FALSE, FALSE, FALSE), 2), "altRev"),
                ChainOf(EProf("dot", "none", "two", 3, "none", FALSE, TRUE, TRUE), "three") }
+             \cup { Xml(ChainOf(EProf("nested", "sp20", "one", IF x.rev THEN 2 ELSE 3, "last", TRUE, TRUE, FALSE), IF x.foreign THEN "altRev" ELSE "one"), x)
+                     : x \in XmlSome }
 \* (a parameter keeps TLC from evaluating the full product at startup of every run)
 OWide(dummy) == { o \in { Alias(Enc(Miss(OProf(pa, tg, de, ex, inf), m), en), al) :
                                          pa \in {"std", "nested", "renamed", "dot"}, tg \in {"rel", "abs"},
@@ -111,8 +130,13 @@ EWide(dummy) == { e \in { Alias(Miss(EProf(pa, en, op, ve, de, xt, ex, inf), m),
                      op \in {"root", "one", "two"}, ve \in {2, 3}, de \in {"none", "first", "last"},
                      xt \in BOOLEAN, ex \in BOOLEAN, inf \in BOOLEAN, m \in 0..K } :
              ~(e.paths = "renamed" /\ e.opf = "root") }     \* ../text/ needs a parent directory
-ProfilesOf(f) == IF f = "epub" THEN (IF Wide THEN EWide(0) ELSE EProfiles)
-                 ELSE (IF Wide THEN OWide(0) ELSE OProfiles)
+NegO == { OProf("std", "rel", "none", FALSE, TRUE), Miss(OProf("renamed", "rel", "conv", FALSE, TRUE), 2),
+          Miss(OProf("std", "rel", "last", FALSE, TRUE), 1) }
+NegE == { EProf("std", "plusLit", "one", 3, "none", FALSE, FALSE, TRUE),
+          Alias(EProf("std", "pct2520", "one", 3, "none", FALSE, FALSE, TRUE), "decoded"),
+          ChainOf(EProf("std", "none", "one", 3, "none", FALSE, FALSE, TRUE), "altRev") }
+ProfilesOf(f) == IF f = "epub" THEN (CASE Wide = "wide" -> EWide(0) [] Wide = "neg" -> NegE [] OTHER -> EProfiles)
+                 ELSE (CASE Wide = "wide" -> OWide(0) [] Wide = "neg" -> NegO [] OTHER -> OProfiles)
 
 \* -------------------------- names and references --------------------------
 OpfDir(pr) == CASE pr.opf = "root" -> <<>> [] pr.opf = "one" -> <<"OEBPS">> [] pr.opf = "two" -> <<"OPS", "pkg">>
@@ -204,22 +228,22 @@ Draw(f, pr) == pkg' = MkPkg(f, pr, RandomElement(Perms), RandomElement(Perms), R
 SimPick ==
     /\ pkg.fmt = "none"
     /\ \E f \in R(Fmts) :
-          IF ~Wide THEN \E pr \in R(ProfilesOf(f)) : Draw(f, pr)
+          IF Wide # "wide" THEN \E pr \in R(ProfilesOf(f)) : Draw(f, pr)
           ELSE IF f = "epub" THEN
             \E pa \in R({"std", "nested", "renamed", "dot"}), al \in R({"none", "decoded", "undecoded", "query"}),
                en \in R({"none", "sp20", "plusLit", "plus2B", "pct2520", "pct25z", "eC3A9", "eRaw", "paren", "amp"}),
                op \in R({"root", "one", "two"}), ve \in R({2, 3}), de \in R({"none", "first", "last"}),
                xt \in R(BOOLEAN), ex \in R(BOOLEAN), inf \in R(BOOLEAN), m \in R(0..K),
-               ch \in R({"one", "one", "altRev", "altSub", "otherFirst", "three"}) :
-               Draw(f, ChainOf(Alias(Miss(EProf(pa, en, IF pa = "renamed" /\ op = "root" THEN "one" ELSE op,
-                                               IF ch = "otherFirst" THEN 2 ELSE ve, de, xt, ex, inf), m), al), ch))
+               ch \in R({"one", "one", "altRev", "altSub", "otherFirst", "three"}), x \in R(XmlSome \cup {XStd}) :
+               Draw(f, Xml(ChainOf(Alias(Miss(EProf(pa, en, IF pa = "renamed" /\ op = "root" THEN "one" ELSE op,
+                                               IF ch = "otherFirst" THEN 2 ELSE ve, de, xt, ex, inf), m), al), ch), x))
           ELSE
             \E pa \in R({"std", "nested", "renamed", "dot"}), tg \in R({"rel", "abs"}), de \in R({"none", "first", "last", "conv"}),
                ex \in R(BOOLEAN), inf \in R(BOOLEAN), m \in R(0..K),
                en \in R({"none", "sp20", "plusLit", "pct2520", "eC3A9", "paren", "amp"}), al \in R({"none", "decoded", "query"}),
-               ch \in R({"one", "infraFirst"}) :
-               Draw(f, ChainOf(Alias(Enc(Miss(OProf(pa, tg, IF de = "conv" /\ ~(m > 0 /\ pa \in {"nested", "renamed"}) THEN "none" ELSE de,
-                                            ex, inf), m), en), al), ch))
+               ch \in R({"one", "infraFirst"}), x \in R(XmlSome \cup {XStd}) :
+               Draw(f, Xml(ChainOf(Alias(Enc(Miss(OProf(pa, tg, IF de = "conv" /\ ~(m > 0 /\ pa \in {"nested", "renamed"}) THEN "none" ELSE de,
+                                            ex, inf), m), en), al), ch), x))
     /\ UNCHANGED <<pages, pos>>
 SimNext == SimPick \/ (pkg.fmt # "none" /\ Next)
 SimSpec == SimInit /\ [][SimNext]_vars
